@@ -23,6 +23,7 @@ MACRO_SETS = [
     [("журнал", "инфо")],
     [("log", "info"), ("tracing", "event"), ("my_app::audit", "record")],
     [("app_core::telemetry::audit", "record"), ("audit", "note")],
+    [("log", "_trace"), ("_internal", "emit")],
 ]
 
 
@@ -300,11 +301,14 @@ def compare(code, expected, result):
 
 TARGETS = [None, '"t"', '"my_app::net"', '"a,b;c d"', '"//host/x"', '" sp /* c */"', '"q\\"uote"']
 KV_SHAPES = ['k = 1', 'k = "v"', 'k = "a;b,c"', 'k = x', 'k', 'k:? = x', 'k:% = x', 'k:debug = x', 'k:display', 'k:err = e',
-             'k:sval = x', 'k:serde = x', '_0 = 1', 'k = __', '__x1', 'k = _1', 'k = "q\\"uote"', 'k = "path\\\\"']
+             'k:sval = x', 'k:serde = x', '_0 = 1', 'k = __', '__x1', 'k = _1', 'k = "q\\"uote"', 'k = "path\\\\"',
+             # comment-like text inside a key-value string
+             'k = "http://host/feed"', 'k = "a /* b */ c"', 'k = "glob/*"']
 MESSAGES = ['plain', '{} {}', '{name:?}', 'say \\"hi\\"', 'é名😀', 'mid [ref: 12] text', ' leading blank', '\\tleading escape',
             '//host/path', '/* x */ y', '', '{{x}}', 'ends \\\\']
 TRAILING = ['', ', x', ', x, y', ', a = 1', ', "lit"', ',']
-FILLERS = [None, '', ' ', '  ', '\n    ', '\r\n\t', ' /* c */ ', ' /* ; , " */ ', ' // c\n    ', '\n', ' // c\n', ' /* a /* b */ c */ ', '\x0c', '\u2028', ' \u200e', '\x0b\u0085']
+FILLERS = [None, '', ' ', '  ', '\n    ', '\r\n\t', ' /* c */ ', ' /* ; , " */ ', ' // c\n    ', '\n', ' // c\n', ' /* a /* b */ c */ ', '\x0c', '\u2028', ' \u200e', '\x0b\u0085',
+           ' /* c */\u200e', '\u200f/* c */ ', ' // c\n\u200e']
 SITES = ['after_open', 'after_target', 'after_kv_comma', 'after_semi', 'before_sep', 'before_close']
 CTX_BEFORE = ['', '  ', '\t', '{ ', '; ', '=> ', 'return ', 'break ', 'let _ = ', 'x = ', '} else { ', '|e| ', 'foo(); ', '/* c */ ',
               '"s" ', 'é; ', "let c = '\"'; ", "m(b'\"'); ", 'let r = r#"x"y"#; ',
